@@ -47,7 +47,7 @@ Theorem c07_lock_discipline : forall s o,
   r_out (step all_fixed s o) = Ok /\
   Inv (r_state (step all_fixed s o)) /\
   disciplined (r_events (step all_fixed s o)) = true /\
-  (forall id t, ~ touches o id -> lookup id (store s) = Some (Have t) ->
+  (forall id t, ~ p_tree (touches o) id -> lookup id (store s) = Some (Have t) ->
                 lookup id (store (r_state (step all_fixed s o))) = Some (Have t)).
 Proof. exact step_safe. Qed.
 Print Assumptions c07_lock_discipline.
@@ -55,7 +55,7 @@ Print Assumptions c07_lock_discipline.
 (* whatever peers send, a tree the server has keeps its content *)
 Theorem c07_known_tree_stays : forall ops s id t,
   Inv s ->
-  (forall o, In o ops -> ~ touches o id) ->
+  (forall o, In o ops -> ~ p_tree (touches o) id) ->
   lookup id (store s) = Some (Have t) ->
   lookup id (store (run all_fixed s ops)) = Some (Have t).
 Proof. exact known_tree_stays. Qed.
@@ -63,7 +63,7 @@ Print Assumptions c07_known_tree_stays.
 
 Theorem c07_known_tree_stays_gen : forall fx ops s id t,
   base_fixed fx -> crash_fixed fx -> Inv s ->
-  (forall o, In o ops -> ~ touches o id) ->
+  (forall o, In o ops -> ~ p_tree (touches o) id) ->
   lookup id (store s) = Some (Have t) ->
   lookup id (store (run fx s ops)) = Some (Have t).
 Proof. exact known_tree_stays_gen. Qed.
@@ -100,13 +100,37 @@ Example c07_will_deliver_satisfiable :
 Proof. exact will_deliver_example. Qed.
 Print Assumptions c07_will_deliver_satisfiable.
 
-(* a run on a tree the server lacks: with F71 the sender is asked (even if others were asked
-   before); the current code lacks F71: c07_f71_refuted ... *)
+(* peers cannot finish a run of the registered protocol ... *)
+Theorem c07_legit_token_stays_unfinished : forall fx ops s k,
+  base_fixed fx -> crash_fixed fx -> Inv s ->
+  proto_known (tk_proto k) = true ->
+  (forall o, In o ops -> o <> LocalDone k) ->
+  mem_tok k (finished s) = false ->
+  mem_tok k (finished (run fx s ops)) = false.
+Proof. exact legit_token_stays_unfinished. Qed.
+Print Assumptions c07_legit_token_stays_unfinished.
+
+(* ... so after ANY history that is not the run's own Done nor a service re-registering its
+   tree, a legitimate message on a stored tree still reaches the handler *)
+Theorem c07_still_serves_after_any_history : forall fx, base_fixed fx -> crash_fixed fx ->
+  forall ops s p nf from k t f,
+  Inv s -> lookup (tk_tree k) (store s) = Some (Have t) ->
+  mem_tok k (finished s) = false -> search t (tk_node k) <> None -> proto_known (tk_proto k) = true ->
+  deliverable t p from BPing f ->
+  (forall o, In o ops -> ~ p_tree (touches o) (tk_tree k) /\ o <> LocalDone k) ->
+  let r := step fx (run fx s ops) (Recv p false nf (MProto from (Some k) BPing)) in
+  r_out r = Ok /\ In (EDeliver k (tk_node f)) (r_events r).
+Proof. exact still_serves_after_any_history. Qed.
+Print Assumptions c07_still_serves_after_any_history.
+
+(* a run on a tree the server lacks and nobody was asked for: the sender is asked (any
+   variant, the current code included); with F71 also when others were asked before - the
+   current code lacks F71 for that case: c07_f71_refuted ... *)
 Theorem c07_asks_sender_for_tree : forall fx, base_fixed fx -> crash_fixed fx -> forall s p nf from k b,
-  f71 fx = true ->
   Inv s -> b <> BGarbage -> reachable p = true ->
   (lookup (tk_tree k) (store s) = None \/
-   exists asked, lookup (tk_tree k) (store s) = Some (Req asked) /\ mem_nat p asked = false) ->
+   (f71 fx = true /\
+    exists asked, lookup (tk_tree k) (store s) = Some (Req asked) /\ mem_nat p asked = false)) ->
   let r := step fx s (Recv p false nf (MProto from (Some k) b)) in
   r_out r = Ok /\
   In (ESend p (RReqTree (tk_tree k))) (r_events r) /\
@@ -136,7 +160,7 @@ Proof. exact served_when_unforged. Qed.
 Print Assumptions c07_served_when_unforged.
 
 (* the five crash / leak defects are confined to their input classes: for any variant with
-   the repairs F26 F71 F72 (base_fixed), every history all of whose operations are [benign]
+   the repairs F26 and F72 (base_fixed), every history all of whose operations are [benign]
    in the state they meet (destination token present or F05; description with nodes or F06
    and roster members with keys or F70; roster request with no requested-not-received tree
    or F07; roster message with something pending or F08) is safe *)
